@@ -37,23 +37,43 @@ DISCIPLINE = {
 
 
 def resolve_classes(trace):
-    """address -> class name learned from the events whose source line names the mutex"""
+    """How the mutex of a lock operation is named.  The harness names it from the source line of the call
+    (Type.field).  Where that fails (class ends in ".?") the name is inferred, in this order: from the calling function,
+    when every resolved operation of that function and kind names one and the same class; from the address, within the
+    same history only (addresses are reused once objects are freed, so an address says nothing across histories)."""
     recs = [json.loads(l) for l in open(trace)]
-    names = {}
+    byfn = {}
     for r in recs:
         for cls, op, g, addr, fn in r.get("locks", []):
             if not cls.endswith(".?"):
-                names.setdefault(addr, cls)
-    return recs, names
+                byfn.setdefault((fn, op.lstrip("R").replace("Unlock", "Lock")), set()).add(cls)
+    fnmap = {k: next(iter(v)) for k, v in byfn.items() if len(v) == 1}
+    return recs, fnmap
 
 
-def segments_of(events, names):
-    """maximal nested segments per goroutine: from an acquire while holding nothing to the release of everything"""
-    segs, cur, held = [], {}, {}
+def name_events(events, fnmap, addrmap):
+    """[(class, op, goroutine, inferred)] with the rules of resolve_classes; addrmap is the per-history address table"""
+    out = []
     for cls, op, g, addr, fn in events:
-        c = names.get(addr, cls)
+        inferred = False
+        if cls.endswith(".?"):
+            inferred = True
+            k = (fn, op.lstrip("R").replace("Unlock", "Lock"))
+            cls = fnmap.get(k) or addrmap.get(addr) or cls
+        else:
+            addrmap.setdefault(addr, cls)
+        out.append((cls, op, g, inferred))
+    return out
+
+
+def segments_of(named):
+    """maximal nested segments per goroutine: from an acquire while holding nothing to the release of everything;
+    returns [(segment, inferred)]"""
+    segs, cur, held, inf = [], {}, {}, {}
+    for c, op, g, inferred in named:
         h = held.setdefault(g, [])
         s = cur.setdefault(g, [])
+        inf[g] = inf.get(g, False) or inferred
         if op in ("Lock", "RLock"):
             h.append((c, op))
             s.append((op, c))
@@ -64,8 +84,9 @@ def segments_of(events, names):
                     break
             s.append((op, c))
             if not h:
-                segs.append(tuple(s))
+                segs.append((tuple(s), inf[g]))
                 cur[g] = []
+                inf[g] = False
     return segs
 
 
@@ -75,26 +96,38 @@ def extract_programs(work, tier, seed):
     for h in hs:
         h["config"] = dict(mods=ALL, flags=[], locks=True)
     tf = relay_check.run_l1(work, hs, "locks")
-    recs, names = resolve_classes(tf)
+    recs, fnmap = resolve_classes(tf)
     segs, used, unresolved = {}, {}, 0
+    seen, direct = {}, set()
+    addrmap = {}
     for r in recs:
+        if r.get("k") == "reset":
+            addrmap = {}
         if r.get("k") != "step":
             continue
-        ev = r.get("locks", [])
+        named = name_events(r.get("locks", []), fnmap, addrmap)
         k = (r.get("popped") or {}).get("k") or r["step"]
         ok = r["ret"] == "ok" and not any(m["t"] == "ERROR" for c, ms in r["out"] for m in ms if c == r.get("conn"))
-        for s in segments_of(ev, names):
+        for s, inferred in segments_of(named):
             if any(c.endswith(".?") for _, c in s):
                 unresolved += 1
                 continue
             nested = len({c for _, c in s}) > 1
             if nested or s[0][0] == "Lock":
                 segs.setdefault(s, set()).add(k)
+                seen[s] = seen.get(s, 0) + 1
+                if not inferred:
+                    direct.add(s)
         if ok:
             u = used.setdefault(k, set())
-            for cls, op, g, addr, fn in ev:
+            for cls, op, g, inferred in named:
                 if op in ("Lock", "RLock"):
-                    u.add((names.get(addr, cls), op))
+                    u.add((cls, op))
+    # a segment whose shape rests on an inferred name and that was seen only once is not evidence of a lock program
+    for s in list(segs):
+        if s not in direct and seen[s] < 2:
+            del segs[s]
+            unresolved += 1
     return segs, used, unresolved, len(hs)
 
 
